@@ -1,16 +1,30 @@
 import PynetVerif.Lemmas.Dul
+import PynetVerif.Lemmas.DulStream
 import PynetVerif.Model.DulAdmissible
 /-!
 C05 (invariant part) — for every schedule in which the local association code behaves
 *synchronously-admissibly*, the reactor thread never dies.
 
 `C05.lean` shows that the unrestricted statement is false (races between the association thread and
-the reactor, ARTIM expiry after `stop`).  Here the schedule is restricted: the association code
-issues a primitive only at a quiescent point of the reactor and only if PS3.8 defines its event for
-the provider's current state, and the ARTIM timeout elapses only at a quiescent point.  The peer (any
-well-formed PDU, invalid PDUs, EOF, at any time), send failures and connect failures are
-unrestricted.  `C05_defined_partial` then proves, for every such schedule, that no dispatch ever
-raises.
+the reactor, ARTIM expiry after `stop`).  Here the schedule is restricted (`Dul.runOk`,
+Model/DulAdmissible.lean): the association code issues a primitive either at a quiescent point of the
+reactor and only if PS3.8 defines its event for the provider's current state, or it *streams* P-DATA
+requests in Sta6 (`streamOk`: back-to-back `send_pdu(P-DATA)` calls at any moment of the reactor's
+iteration, with P-DATA requests still pending, provided the reactor has not already queued an event that
+takes it to Sta13: `streamQ`); and the ARTIM timeout elapses only at a quiescent point.  The peer (any
+well-formed PDU, invalid PDUs, EOF, at any time, also in the middle of a stream), send failures and
+connect failures are unrestricted.  `C05_defined_partial` then proves, for every such schedule, that no
+dispatch ever raises.
+
+Two layers.  `Inv` (shapes `loc`/`tr`/`acc`/`req`/`exp`) is the invariant of *synchronous* admissibility
+(`runOkSync`: the quiescent clause only); it is also what the two-sided C06 proofs build on.  `InvS`
+adds the streaming shape `Strm` and is the invariant of the full `runOk`.  `Strm` rests on the reactor
+serving ONE event source per iteration with local primitives first: while a request is pending phase A
+queues exactly one Evt9 and does not read the transport, phase B dispatches exactly one event, so there is
+never more than one undispatched Evt9 in front of a terminating event and never a PDU event between a
+pending request and its Evt9.  `Props/C05Stream.lean` shows that a reactor serving both sources per
+iteration breaks this (`C05_neg_stream_both_sources`) and that `streamQ` cannot be dropped
+(`C05_neg_stream_*`).
 -/
 namespace PynetVerif
 open Fsm Dul
@@ -76,7 +90,7 @@ theorem artimOk_expired {fsm : Nat} {ar : Artim} (h : artimOk fsm ar = true) (he
   cases ar <;> simp [Artim.expired, artimOk] at he h ⊢
   exact h
 
-theorem env_inv (s : St) (e : Env) (hok : stepOk s (.env e) = true) (h : Inv s) : Inv (env e s) := by
+theorem env_inv (s : St) (e : Env) (hok : stepOkSync s (.env e) = true) (h : Inv s) : Inv (env e s) := by
   obtain ⟨hd, hk | hL⟩ := h
   · cases e <;> exact ⟨hd, Or.inl hk⟩
   obtain ⟨rng, cnt, art, box, shape⟩ := hL
@@ -90,7 +104,7 @@ theorem env_inv (s : St) (e : Env) (hok : stepOk s (.env e) = true) (h : Inv s) 
   | breakConn => exact ⟨hd, Or.inr ⟨rng, cnt, art, box, shape⟩⟩
   | connectWillFail => exact ⟨hd, Or.inr ⟨rng, cnt, art, box, shape⟩⟩
   | artimFire =>
-    simp only [stepOk, quiescent, Bool.and_eq_true, Bool.not_eq_true', List.isEmpty_iff] at hok
+    simp only [stepOkSync, quiescent, Bool.and_eq_true, Bool.not_eq_true', List.isEmpty_iff] at hok
     obtain ⟨⟨hb, hq⟩, hp⟩ := hok
     cases har : s.artim with
     | running =>
@@ -104,7 +118,7 @@ theorem env_inv (s : St) (e : Env) (hok : stepOk s (.env e) = true) (h : Inv s) 
       rw [har] at art shape ⊢
       exact ⟨rng, cnt, art, box, shape⟩
   | «local» p =>
-    simp only [stepOk, quiescent, Bool.and_eq_true, Bool.not_eq_true', List.isEmpty_iff] at hok
+    simp only [stepOkSync, quiescent, Bool.and_eq_true, Bool.not_eq_true', List.isEmpty_iff] at hok
     obtain ⟨⟨⟨⟨hb, hq⟩, hp⟩, hu⟩, hdef⟩ := hok
     refine ⟨hd, Or.inr ?_⟩
     show LiveF s.fsm s.eventQ (s.provQ ++ [p]) s.recvPdu s.artim s.phaseB s.connected s.inbox
@@ -449,35 +463,337 @@ theorem iterB_inv (s : St) (h : Inv s) : Inv (iterB s) := by
           rcases (artimOk_expired art he).2 with h | h <;> rw [h] <;> decide
         exact dispatch_exp { s with eventQ := rest, phaseB := false } hd hp hdef
 
-/-! ### every admissible schedule -/
+/-! ### every synchronously admissible schedule -/
 
-theorem step_inv (s : St) (st : Step) (hok : stepOk s st = true) (h : Inv s) : Inv (step s st) := by
+theorem step_inv (s : St) (st : Step) (hok : stepOkSync s st = true) (h : Inv s) : Inv (step s st) := by
   cases st with
   | env e => exact env_inv s e hok h
   | a => exact iterA_inv s h
   | b => exact iterB_inv s h
 
-theorem run_inv : ∀ (sched : List Step) (s : St), runOk s sched = true → Inv s → Inv (run s sched) := by
+theorem run_inv : ∀ (sched : List Step) (s : St), runOkSync s sched = true → Inv s → Inv (run s sched) := by
+  intro sched
+  induction sched with
+  | nil => intro s _ h; exact h
+  | cons st rest ih =>
+    intro s hok h
+    simp only [runOkSync, Bool.and_eq_true] at hok
+    exact ih (step s st) hok.2 (step_inv s st hok.1 h)
+
+/-! ### streamed P-DATA requests -/
+
+/-- streamed P-DATA requests in Sta6 (or Sta8, once the peer's A-RELEASE-RQ has been dispatched): only
+P-DATA requests are pending (possibly none any more); the event queue is empty or led by a terminating
+event (Evt16/Evt17: whatever follows is never dispatched) — except, between phase A and phase B, for the
+event of the iteration in progress, which is the Evt9 of a pending request, the peer's A-RELEASE-RQ, or a
+P-DATA-TF PDU with a decodable payload: none of them leads to Sta13, and every one leaves the queue
+empty-or-terminator-led again -/
+structure StrmF (fsm : Nat) (eventQ : List Nat) (provQ : List Prim) (recvPdu : List (Nat × Bool))
+    (artim : Artim) (phaseB : Bool) (inbox : List Wire) : Prop where
+  h68 : fsm = 6 ∨ fsm = 8
+  cnt : pduCount eventQ ≤ recvPdu.length
+  art : artimOk fsm artim = true
+  box : ∀ w ∈ inbox, wireOk w = true
+  hp : ∀ p ∈ provQ, p = .pdata
+  hq : termLed eventQ = true ∨
+    (phaseB = true ∧ ∃ e r, eventQ = e :: r ∧ termLed r = true ∧
+      ((e = 9 ∧ provQ ≠ []) ∨ (fsm = 6 ∧ e = 12) ∨ (fsm = 6 ∧ e = 10 ∧ headDecodable recvPdu = true)))
+
+abbrev Strm (s : St) : Prop := StrmF s.fsm s.eventQ s.provQ s.recvPdu s.artim s.phaseB s.inbox
+
+/-- the invariant of the full `runOk`: the synchronous invariant, or the thread is alive and the queues
+are in the streaming shape -/
+abbrev InvS (s : St) : Prop := Inv s ∨ (s.dead = false ∧ Strm s)
+
+/-- a streamed request puts the queues into the streaming shape, whatever shape they had -/
+theorem strm_of_streamOk (s : St) (p : Prim) (hok : streamOk s p = true)
+    (cnt : pduCount s.eventQ ≤ s.recvPdu.length) (art : artimOk s.fsm s.artim = true)
+    (box : ∀ w ∈ s.inbox, wireOk w = true) : Strm (env (.local p) s) := by
+  simp only [streamOk, Bool.and_eq_true, beq_iff_eq] at hok
+  obtain ⟨⟨⟨hpd, h6⟩, hall⟩, hsq⟩ := hok
+  subst hpd
+  show StrmF s.fsm s.eventQ (s.provQ ++ [.pdata]) s.recvPdu s.artim s.phaseB s.inbox
+  have hall' : ∀ p ∈ s.provQ ++ [Prim.pdata], p = .pdata := by
+    intro p hp
+    rcases List.mem_append.mp hp with h | h
+    · exact allPdata_iff.mp hall p h
+    · simpa using h
+  refine ⟨Or.inl h6, cnt, art, box, hall', ?_⟩
+  rcases streamQ_spec hsq with h | ⟨hb, e, r, heq, htl, hcase⟩
+  · exact Or.inl h
+  · refine Or.inr ⟨hb, e, r, heq, htl, ?_⟩
+    rcases hcase with h9 | h12 | ⟨h10, hdec⟩
+    · exact Or.inl ⟨h9, by simp⟩
+    · exact Or.inr (Or.inl ⟨h6, h12⟩)
+    · exact Or.inr (Or.inr ⟨h6, h10, hdec⟩)
+
+theorem env_invS (s : St) (e : Env) (hok : stepOk s (.env e) = true) (h : InvS s) : InvS (env e s) := by
+  rcases h with h | ⟨hd, hS⟩
+  · -- from the synchronous invariant
+    cases e with
+    | «local» p =>
+      simp only [stepOk, Bool.or_eq_true] at hok
+      rcases hok with hok | hok
+      · exact Or.inl (env_inv s (.local p) hok h)
+      · obtain ⟨hd, hk | hL⟩ := h
+        · exact Or.inl ⟨hd, Or.inl hk⟩
+        · exact Or.inr ⟨hd, strm_of_streamOk s p hok hL.cnt hL.art hL.box⟩
+    | peer w => exact Or.inl (env_inv s _ hok h)
+    | breakConn => exact Or.inl (env_inv s _ hok h)
+    | artimFire => exact Or.inl (env_inv s _ hok h)
+    | connectWillFail => exact Or.inl (env_inv s _ hok h)
+  · -- from the streaming shape
+    obtain ⟨h68, cnt, art, box, hp, hq⟩ := hS
+    cases e with
+    | peer w =>
+      refine Or.inr ⟨hd, h68, cnt, art, ?_, hp, hq⟩
+      intro w' hw'
+      rcases List.mem_append.mp hw' with h | h
+      · exact box w' h
+      · simp only [List.mem_singleton] at h; subst h; exact hok
+    | breakConn => exact Or.inr ⟨hd, h68, cnt, art, box, hp, hq⟩
+    | connectWillFail => exact Or.inr ⟨hd, h68, cnt, art, box, hp, hq⟩
+    | artimFire =>
+      -- ARTIM does not run in Sta6/Sta8: nothing to expire
+      refine Or.inr ⟨hd, ?_⟩
+      show StrmF s.fsm s.eventQ s.provQ s.recvPdu s.artim.fire s.phaseB s.inbox
+      rw [(artimOk_68 h68 art 0).2.2]
+      exact ⟨h68, cnt, art, box, hp, hq⟩
+    | «local» p =>
+      simp only [stepOk, Bool.or_eq_true] at hok
+      rcases hok with hok | hok
+      · -- the stream has drained and the reactor is quiescent again: back to the `loc` shape
+        simp only [quiescentOk, quiescent, Bool.and_eq_true, Bool.not_eq_true', List.isEmpty_iff] at hok
+        obtain ⟨⟨⟨⟨hb, hq0⟩, hp0⟩, _⟩, hdef⟩ := hok
+        refine Or.inl ⟨hd, Or.inr ?_⟩
+        show LiveF s.fsm s.eventQ (s.provQ ++ [p]) s.recvPdu s.artim s.phaseB s.connected s.inbox
+        rw [hp0]
+        exact ⟨by omega, cnt, art, box, Shape.loc p rfl hdef (artimOk_68 h68 art 0).2.1 (Or.inl ⟨hb, hq0⟩)⟩
+      · exact Or.inr ⟨hd, strm_of_streamOk s p hok cnt art box⟩
+
+theorem iterA_invS (s : St) (h : InvS s) : InvS (iterA s) := by
+  rcases h with h | ⟨hd, hS⟩
+  · exact Or.inl (iterA_inv s h)
+  rw [iterA_unfold]
+  split
+  · exact Or.inr ⟨hd, hS⟩
+  rename_i hcond
+  have hb : s.phaseB = false := by
+    cases hpb : s.phaseB with
+    | false => rfl
+    | true => simp [hpb] at hcond
+  obtain ⟨h68, cnt, art, box, hp, hq⟩ := hS
+  have hne : s.artim.expired = false := (artimOk_68 h68 art 0).2.1
+  have e1 : iterA1 s = s := by simp [iterA1, hne]
+  have htl : termLed s.eventQ = true := by
+    rcases hq with h | ⟨hb', _⟩
+    · exact h
+    · rw [hb] at hb'; cases hb'
+  rw [e1]
+  cases hpq : s.provQ with
+  | cons p rest =>
+    -- a pending P-DATA request is peeked: Evt9 is queued, the transport is NOT read
+    have hpd : p = .pdata := hp p (by rw [hpq]; exact List.mem_cons_self ..)
+    have e2 : iterA2 s = { s with eventQ := s.eventQ ++ [9] } := by
+      unfold iterA2; rw [hpq, hpd]; rfl
+    rw [e2]
+    refine Or.inr ⟨hd, ?_⟩
+    show StrmF s.fsm (s.eventQ ++ [9]) s.provQ s.recvPdu s.artim (!(s.eventQ ++ [9]).isEmpty) s.inbox
+    have hbt : (!(s.eventQ ++ [9]).isEmpty) = true := by simp
+    rw [hbt]
+    refine ⟨h68, ?_, art, box, hp, ?_⟩
+    · rw [pduCount_append]
+      have : pduCount [9] = 0 := by decide
+      omega
+    · by_cases heq : s.eventQ = []
+      · rw [heq]
+        exact Or.inr ⟨rfl, 9, [], rfl, rfl, Or.inl ⟨rfl, by rw [hpq]; simp⟩⟩
+      · exact Or.inl (termLed_append _ htl heq)
+  | nil =>
+    have e2 : iterA2 s = readOrClose s := by unfold iterA2; rw [hpq]
+    rw [e2]
+    by_cases heq : s.eventQ = []
+    · -- nothing pending, nothing queued: the stream is over, this is the `tr` shape
+      have h1 : s.fsm ≠ 1 := by rcases h68 with h | h <;> omega
+      have h4 : s.fsm ≠ 4 := by rcases h68 with h | h <;> omega
+      exact Or.inl (iterA_src_live s hd (by omega) cnt art box hpq
+        (fun ex hext _ _ _ => Shape.tr rfl hne h1 h4
+          (all_tev_append (fun x hx => by rw [heq] at hx; cases hx) hext)))
+    · -- a terminating event leads the queue: whatever is read is queued behind it
+      have F := readOrClose_src s box
+      obtain ⟨ex, hex, _, hlen, _⟩ := F.ev
+      refine Or.inr ⟨F.dead.trans hd, ?_⟩
+      show StrmF (readOrClose s).fsm (readOrClose s).eventQ (readOrClose s).provQ (readOrClose s).recvPdu
+        (readOrClose s).artim (!(readOrClose s).eventQ.isEmpty) (readOrClose s).inbox
+      rw [F.fsm, F.provQ, F.artim, hex, hpq]
+      refine ⟨h68, ?_, art, fun w hw => box w (F.inbox w hw), (fun _ h => nomatch h),
+        Or.inl (termLed_append ex htl heq)⟩
+      rw [pduCount_append, hlen]; omega
+
+/-- the normal path of an action that keeps the provider in Sta6/Sta8, touches neither ARTIM nor the
+transport connection and does not queue Evt19, in the streaming shape -/
+theorem act_strm (s : St) (a : Action) (e n : Nat) (hb : s.phaseB = false)
+    (box : ∀ w ∈ s.inbox, wireOk w = true) (art : artimOk s.fsm s.artim = true)
+    (h68 : s.fsm = 6 ∨ s.fsm = 8) (hn : n = 6 ∨ n = 8)
+    (heff : ∀ req alt b, (effB a req alt b).2 = n ∧
+      (usedEffs a (effB a req alt b).1).contains .connect = false ∧
+      artimAfter (usedEffs a (effB a req alt b).1) s.artim = s.artim)
+    (hno19 : ((a = .DT_2 || a = .AR_6) && altOf s a e) = false)
+    (htl : termLed s.eventQ = true)
+    (cnt : pduCount s.eventQ + (if popsPdu a = true then 1 else 0) ≤ s.recvPdu.length)
+    (hpq : ∀ p ∈ (popInputs s a).provQ, p = .pdata) :
+    (act s a e).dead = s.dead ∧ Strm (act s a e) := by
+  obtain ⟨alt, b, A⟩ := act_spec s a e
+  obtain ⟨hn', hc, har⟩ := heff s.requestor alt b
+  obtain ⟨ex, hex, hex17⟩ := act_evq17 s a e hno19
+  have hexp : pduCount ex = 0 := by
+    apply pduCount_eq_zero
+    intro x hx; rw [hex17 x hx]; rfl
+  refine ⟨A.dead, ?_⟩
+  unfold Strm
+  rw [A.fsm, hex, A.recvPdu, A.artim, A.phaseB, A.inbox, hb, A.provQ hc, hn', har]
+  refine ⟨hn, ?_, (artimOk_68 h68 art n).1, box, hpq, Or.inl (termLed_append17 htl hex17)⟩
+  rw [pduCount_append, hexp]
+  split
+  · rw [List.length_tail]; rename_i hp; simp only [hp, ↓reduceIte] at cnt; omega
+  · rename_i hp; simp only [hp] at cnt; simpa using cnt
+
+/-- dispatch of an event whose action leads to Sta1: the reactor stops -/
+theorem dispatch_to_idle (s : St) (e : Nat) (a : Action) (hd : s.dead = false)
+    (hl : lookup Spec.Ps38.table e s.fsm = some a) (hf : fatal s a = false)
+    (h1 : ∀ req alt b, (effB a req alt b).2 = 1) : Inv (dispatch s e) := by
+  rw [dispatch_act s _ a hl hf]
+  obtain ⟨alt, b, A⟩ := act_spec s a e
+  refine ⟨A.dead.trans hd, Or.inl ?_⟩
+  rw [A.kill, h1]; simp
+
+/-- dispatch in the streaming shape: a terminating event (AA-3/AA-4: the reactor stops), the Evt9 of a
+pending P-DATA request (DT-1 in Sta6, AR-7 in Sta8), the peer's A-RELEASE-RQ (AR-2: Sta6 → Sta8) or a
+decodable P-DATA-TF PDU (DT-2) -/
+theorem dispatch_strm (s : St) (e : Nat) (hd : s.dead = false) (hb : s.phaseB = false)
+    (cnt : pduCount (e :: s.eventQ) ≤ s.recvPdu.length)
+    (art : artimOk s.fsm s.artim = true) (box : ∀ w ∈ s.inbox, wireOk w = true)
+    (h68 : s.fsm = 6 ∨ s.fsm = 8) (hp : ∀ p ∈ s.provQ, p = .pdata)
+    (hq : termLed (e :: s.eventQ) = true ∨ (termLed s.eventQ = true ∧
+      ((e = 9 ∧ s.provQ ≠ []) ∨ (s.fsm = 6 ∧ e = 12) ∨
+       (s.fsm = 6 ∧ e = 10 ∧ headDecodable s.recvPdu = true)))) : InvS (dispatch s e) := by
+  rw [pduCount_cons] at cnt
+  have hrecv : pduEv e = true → s.recvPdu ≠ [] := by
+    intro h hnil; rw [h, hnil] at cnt; simp at cnt
+  have fin : ∀ a, (act s a e).dead = s.dead ∧ Strm (act s a e) → InvS (act s a e) :=
+    fun a h => Or.inr ⟨h.1.trans hd, h.2⟩
+  rcases hq with hterm | ⟨htl, hcase⟩
+  · -- Evt16 / Evt17 in Sta6 / Sta8
+    left
+    rcases termLed_cons hterm with rfl | rfl
+    · have hl : lookup Spec.Ps38.table 16 s.fsm = some .AA_3 := by
+        rcases h68 with h | h <;> rw [h] <;> decide
+      refine dispatch_to_idle s 16 .AA_3 hd hl ?_ (fun _ _ _ => rfl)
+      exact fatal_false s .AA_3 (fun h => by simp [popsPrim] at h) (fun _ => hrecv rfl)
+        (fun h => by cases h)
+    · have hl : lookup Spec.Ps38.table 17 s.fsm = some .AA_4 := by
+        rcases h68 with h | h <;> rw [h] <;> decide
+      refine dispatch_to_idle s 17 .AA_4 hd hl ?_ (fun _ _ _ => rfl)
+      exact fatal_false s .AA_4 (fun h => by simp [popsPrim] at h) (fun h => by simp [popsPdu] at h)
+        (fun h => by cases h)
+  · have htail : ∀ p ∈ s.provQ.tail, p = .pdata := fun p h => hp p (List.mem_of_mem_tail h)
+    rcases hcase with ⟨rfl, hne⟩ | ⟨h6, rfl⟩ | ⟨h6, rfl, hdec⟩
+    · -- Evt9: DT-1 (Sta6) / AR-7 (Sta8) pops one pending request
+      rcases h68 with h6 | h8
+      · have hl : lookup Spec.Ps38.table 9 s.fsm = some .DT_1 := by rw [h6]; decide
+        have hf : fatal s .DT_1 = false :=
+          fatal_false s .DT_1 (fun _ => hne) (fun h => by simp [popsPdu] at h) (fun h => by cases h)
+        rw [dispatch_act s _ _ hl hf]
+        refine fin _ (act_strm s .DT_1 9 6 hb box art (Or.inl h6) (Or.inl rfl) (fun _ _ _ => ⟨rfl, rfl, rfl⟩)
+          rfl htl (by simpa [popsPdu, pduEv] using cnt) ?_)
+        rw [popInputs_provQ_tail s .DT_1 rfl (by decide)]; exact htail
+      · have hl : lookup Spec.Ps38.table 9 s.fsm = some .AR_7 := by rw [h8]; decide
+        have hf : fatal s .AR_7 = false :=
+          fatal_false s .AR_7 (fun _ => hne) (fun h => by simp [popsPdu] at h) (fun h => by cases h)
+        rw [dispatch_act s _ _ hl hf]
+        refine fin _ (act_strm s .AR_7 9 8 hb box art (Or.inr h8) (Or.inr rfl) (fun _ _ _ => ⟨rfl, rfl, rfl⟩)
+          rfl htl (by simpa [popsPdu, pduEv] using cnt) ?_)
+        rw [popInputs_provQ_tail s .AR_7 rfl (by decide)]; exact htail
+    · -- Evt12 in Sta6: AR-2, the provider moves to Sta8 (where Evt9 is AR-7)
+      have hl : lookup Spec.Ps38.table 12 s.fsm = some .AR_2 := by rw [h6]; decide
+      have hf : fatal s .AR_2 = false :=
+        fatal_false s .AR_2 (fun h => by simp [popsPrim] at h) (fun _ => hrecv rfl) (fun h => by cases h)
+      rw [dispatch_act s _ _ hl hf]
+      refine fin _ (act_strm s .AR_2 12 8 hb box art (Or.inl h6) (Or.inr rfl) (fun _ _ _ => ⟨rfl, rfl, rfl⟩)
+        rfl htl (by simpa [popsPdu, pduEv] using cnt) ?_)
+      rw [popInputs_provQ_same s .AR_2 rfl (by decide)]; exact hp
+    · -- Evt10 in Sta6 with a decodable payload: DT-2 queues nothing
+      have hl : lookup Spec.Ps38.table 10 s.fsm = some .DT_2 := by rw [h6]; decide
+      have hf : fatal s .DT_2 = false :=
+        fatal_false s .DT_2 (fun h => by simp [popsPrim] at h) (fun _ => hrecv rfl) (fun h => by cases h)
+      rw [dispatch_act s _ _ hl hf]
+      refine fin _ (act_strm s .DT_2 10 6 hb box art (Or.inl h6) (Or.inl rfl) (fun _ _ _ => ⟨rfl, rfl, rfl⟩)
+        (by rw [altOf_false_of_headDecodable s _ _ hdec]; simp) htl (by simpa [popsPdu, pduEv] using cnt) ?_)
+      rw [popInputs_provQ_same s .DT_2 rfl (by decide)]; exact hp
+
+theorem iterB_invS (s : St) (h : InvS s) : InvS (iterB s) := by
+  rcases h with h | ⟨hd, hS⟩
+  · exact Or.inl (iterB_inv s h)
+  unfold iterB
+  split
+  · exact Or.inr ⟨hd, hS⟩
+  obtain ⟨h68, cnt, art, box, hp, hq⟩ := hS
+  split
+  · rename_i heq
+    refine Or.inr ⟨hd, ?_⟩
+    show StrmF s.fsm s.eventQ s.provQ s.recvPdu s.artim false s.inbox
+    exact ⟨h68, cnt, art, box, hp, Or.inl (by rw [heq]; rfl)⟩
+  · rename_i e rest heq
+    rw [heq] at cnt hq
+    apply dispatch_strm { s with eventQ := rest, phaseB := false } e hd rfl cnt art box h68 hp
+    rcases hq with h | ⟨_, e', r, hcons, htl, hcase⟩
+    · exact Or.inl h
+    · simp only [List.cons.injEq] at hcons
+      obtain ⟨rfl, rfl⟩ := hcons
+      exact Or.inr ⟨htl, hcase⟩
+
+/-! ### every admissible schedule -/
+
+theorem step_invS (s : St) (st : Step) (hok : stepOk s st = true) (h : InvS s) : InvS (step s st) := by
+  cases st with
+  | env e => exact env_invS s e hok h
+  | a => exact iterA_invS s h
+  | b => exact iterB_invS s h
+
+theorem run_invS : ∀ (sched : List Step) (s : St), runOk s sched = true → InvS s → InvS (run s sched) := by
   intro sched
   induction sched with
   | nil => intro s _ h; exact h
   | cons st rest ih =>
     intro s hok h
     simp only [runOk, Bool.and_eq_true] at hok
-    exact ih (step s st) hok.2 (step_inv s st hok.1 h)
+    exact ih (step s st) hok.2 (step_invS s st hok.1 h)
+
+theorem invS_dead {s : St} (h : InvS s) : s.dead = false := by
+  rcases h with h | h
+  · exact h.1
+  · exact h.1
 
 end C05Inv
 
-/-- **Under synchronously-admissible local behaviour the reactor thread never dies**: for every
-schedule of reactor micro-steps and environment steps in which the association code issues a
-primitive only at a quiescent point and only if PS3.8 defines its event for the provider's current
-state, and ARTIM expires only at a quiescent point — the peer sending any well-formed or invalid PDU
-or closing at any time, sends failing, the connect failing — every dispatched (event, state) pair
-has a table entry and every action finds its input: the thread does not die. -/
+/-- **Under admissible local behaviour the reactor thread never dies**: for every schedule of reactor
+micro-steps and environment steps in which the association code issues a primitive either at a
+quiescent point and only if PS3.8 defines its event for the provider's current state, or as a streamed
+P-DATA request in Sta6 (`streamOk`: only P-DATA requests pending, at any moment of the iteration, no
+event already queued that leads to Sta13), and ARTIM expires only at a quiescent point — the peer
+sending any well-formed or invalid PDU or closing at any time, sends failing, the connect failing —
+every dispatched (event, state) pair has a table entry and every action finds its input: the thread
+does not die. -/
 theorem C05_defined_partial (requestor : Bool) (sched : List Step)
     (h : runOk (if requestor then initRequestor else initAcceptor) sched = true) :
     (run (if requestor then initRequestor else initAcceptor) sched).dead = false :=
-  (C05Inv.run_inv sched _ h (C05Inv.inv_init requestor)).1
+  C05Inv.invS_dead (C05Inv.run_invS sched _ h (Or.inl (C05Inv.inv_init requestor)))
+
+/-- the synchronous special case (the statement before streaming was added; `runOkSync` implies `runOk`) -/
+theorem C05_defined_partial_sync (requestor : Bool) (sched : List Step)
+    (h : runOkSync (if requestor then initRequestor else initAcceptor) sched = true) :
+    (run (if requestor then initRequestor else initAcceptor) sched).dead = false :=
+  C05_defined_partial requestor sched (runOk_of_sync sched _ h)
 
 /-! ### why `stepOk` also asks for well-formed wire PDUs, and non-vacuity -/
 
